@@ -121,7 +121,6 @@ class Rule:
                                 break
                             except (TypeError, ValueError):
                                 pass
-                    datum_path = DataPath(*datum_path)
                     set_datum(data_copy, datum_path, datum)
 
         return RuleTest(self, data_copy)
